@@ -682,14 +682,29 @@ def check_filter_twins(ctx):
                 out[norm(st.test)] = v
         return out
 
-    def consulted(e):
+    def consulted(e, depth=0):
+        # an arm that hands the decision to a named predicate of the module (`return _check_all_False(fst_)` / `return _check_all_False`)
+        # consults what the predicate consults
+        tgt = e.func if isinstance(e, ast.Call) and isinstance(e.func, ast.Name) and len(e.args) <= 1 and not e.keywords else e
+        if isinstance(tgt, ast.Name) and depth < 2:
+            g = ctx.repo.find_funcs('fst_traverse', tgt.id)
+            if len(g) == 1 and isinstance(g[0].node, ast.FunctionDef):
+                out = set()
+                for st in g[0].node.body:
+                    if not (isinstance(st, ast.Expr) and isinstance(st.value, ast.Constant)):
+                        out |= consulted(st, depth + 1)
+                bound = {a.arg for a in g[0].node.args.posonlyargs + g[0].node.args.args} | \
+                    {y.id for y in ast.walk(g[0].node) if isinstance(y, ast.Name) and isinstance(y.ctx, ast.Store)}
+                return out - bound
         names = set()
+        bound = {y.id for y in ast.walk(e) if isinstance(y, ast.Name) and isinstance(y.ctx, ast.Store)} | \
+            {a.arg for y in ast.walk(e) if isinstance(y, ast.Lambda) for a in y.args.args}
         for x in ast.walk(e):
             if isinstance(x, ast.Attribute):
                 names.add('.' + x.attr)
-            elif isinstance(x, ast.Name) and x.id not in ('fst_', 'a', 'bool', 'True', 'False'):
+            elif isinstance(x, ast.Name) and x.id not in ('fst_', 'bool', 'True', 'False') and x.id not in bound:
                 names.add(x.id)
-            elif isinstance(x, ast.Constant) and not isinstance(x.value, bool):
+            elif isinstance(x, ast.Constant) and not isinstance(x.value, bool) and x.value is not None:
                 names.add(repr(x.value))
         return names
     A, B = arms(a_[0].node), arms(b_[0].node)
